@@ -46,6 +46,8 @@ type vgen struct {
 	// bounds and batch sizes in the code under test (1024 is a favourite) lie in between.
 	big  bool
 	deep int
+	// chainFrom: the level below which a deep value is a chain (3; 0 for the thin chains of VOpt.Deep)
+	chainFrom int
 }
 
 func (g *gen) genScalarW(t *T, maxStr int) *W {
@@ -128,9 +130,15 @@ func GenValue(c *Corpus, s *StructDef, seed uint64, o VOpt) *W {
 	if o.MaxDepth == 0 {
 		o.MaxDepth = 4
 	}
-	v := &vgen{r: NewRng(Mix(seed, 0x7a1)), c: c, o: o, rem: o.Budget}
+	v := &vgen{r: NewRng(Mix(seed, 0x7a1)), c: c, o: o, rem: o.Budget, chainFrom: 3}
 	if s.Cluster >= 0 && o.Deep > 0 {
 		v.deep, v.o.MaxDepth = o.Deep, o.Deep
+		v.chainFrom = 0
+		if o.Present == 0 {
+			// a thin chain: the depth is the point, and two thousand levels of a definition with a dozen fields
+			// would cost the schedule worlds a minute
+			o.Present, v.o.Present = 0.1, 0.1
+		}
 	} else if s.Cluster >= 0 && o.Budget >= 1500 && NewRng(Mix(seed, 0x5ca1e)).Chance(1, 5) {
 		// definitions that contain themselves: a deep chain one time in five
 		v.deep = []int{70, 520, 1030, 1500}[NewRng(Mix(seed, 0xdee9)).Intn(4)]
@@ -160,7 +168,7 @@ func (v *vgen) structW(s *StructDef, depth int) *W {
 	w := NewW(WStruct)
 	followed := false
 	var link *Field // deep values: the field that leads back into the definition's own cluster, if there is one
-	if v.deep > 0 && depth > 3 && s.Cluster >= 0 {
+	if v.deep > 0 && depth > v.chainFrom && s.Cluster >= 0 {
 		for _, f := range s.Fields {
 			if n := structNameIn(f.T); n != "" && f.Req != Required {
 				if d := v.c.Get(n); d != nil && d.Cluster == s.Cluster {
@@ -174,12 +182,12 @@ func (v *vgen) structW(s *StructDef, depth int) *W {
 		if depth >= v.o.MaxDepth && f.Req != Required && involvesStruct(f.T) {
 			present = false
 		}
-		if v.deep > 0 && depth > 3 && f.Req != Required && involvesStruct(f.T) {
+		if v.deep > 0 && depth > v.chainFrom && f.Req != Required && involvesStruct(f.T) {
 			// a deep value is a chain, not a tree: below the first levels one nested field per struct
 			present = !followed && depth < v.o.MaxDepth && (link == nil || f == link)
 			followed = followed || present
 		}
-		if v.rem <= 0 && f.Req != Required && !(v.deep > 0 && depth > 3 && present && involvesStruct(f.T)) {
+		if v.rem <= 0 && f.Req != Required && !(v.deep > 0 && depth > v.chainFrom && present && involvesStruct(f.T)) {
 			present = false // (the one nested field a deep chain follows is not cut by the size budget)
 		}
 		if !present {
@@ -355,7 +363,7 @@ func (v *vgen) value(t *T, depth int) *W {
 }
 
 func (v *vgen) contLen(elem *T, depth int) int {
-	if v.deep > 0 && depth > 3 {
+	if v.deep > 0 && depth > v.chainFrom {
 		if involvesStruct(elem) {
 			return 1
 		}
